@@ -79,6 +79,11 @@ type Sim struct {
 	parentKnownInvalid, hooked bool
 	// LastHeaderOK: the last ProcessBlockHeader call returned no error
 	LastHeaderOK bool
+	// ProbeRand, when set, varies the utxo check after each operation: half of the time the full-universe scan
+	// (which leaves every outpoint in the cache) is replaced by a few FetchUtxoView probes, each preceded by
+	// single-entry lookups of a random subset of the outpoints involved, so that views are assembled from every mix of
+	// cached-present, cached-absent and database-only entries
+	ProbeRand *mon.Rand
 }
 
 // New opens a fresh node in a new temp dir.
@@ -589,7 +594,11 @@ func (s *Sim) AfterOp(what string) {
 		s.checkViews(opName)
 	}
 	if s.CheckUtxo {
-		s.checkUtxo(opName)
+		if s.ProbeRand != nil && s.ProbeRand.Bool() {
+			s.probeViews(s.ProbeRand, 6)
+		} else {
+			s.checkUtxo(opName)
+		}
 	}
 }
 
